@@ -1,99 +1,550 @@
-//! C06: integer arithmetic is exact or the query fails.
-//! Generates integer tables at the edges of every width class, expression trees of depth <= 3 over
-//! columns and constants, runs `SELECT <expr> FROM t` on the real engine and emits the case for the
-//! Lean model (`Arith.cell` per node) and the Lean spec (exact arithmetic).
+//! C06: integer arithmetic is exact or the query fails — it never wraps.
+//!
+//! Streams (class prefix):
+//!   corpus:*   witnesses of open / fixed findings (run first, deterministic)
+//!   layout     one case per table: number of partitions the engine sees vs. the layout the model is told
+//!   edge:*     directed operand pairs at the edges of u8/u16/u32/i64 and their offset encodings through every
+//!              operator shell (vector∘vector, vector∘scalar, scalar∘vector; nullable or not)
+//!   expr:*     random expression trees of depth <= 3 over columns and constants: SELECT <expr> FROM t
+//!   sum:*      SELECT SUM(<expr>) FROM t  and  SELECT g, SUM(<expr>) FROM t  over partitionings chosen so that
+//!              overflow happens inside one partition, only at merge, or not at all
+//!
+//! Model lines (see lean/LocustModel/Drv/C06.lean):
+//!   layout <bounds>
+//!   expr <rpn> <bounds> <ncols> <col0> … <col{n-1}> <implementation output>
+//!   sum  <rpn> <bounds> <g|-> <ncols> <col0> … <col{n-1}> <implementation output>
+//! bounds = partition boundaries `0,b1,…,n`; col = comma separated `_` | <int>.
+//! Databases are built with a partition_combine_factor that rules out compaction: C06 is about partitions, not
+//! about compaction (that is C07, whose open findings would otherwise change NULLs to 0 here).
 use std::sync::Arc;
+use vharness::locustdb::{LocustDB, Options};
 use vharness::*;
-use vharness::locustdb::LocustDB;
 
 #[derive(Clone, Debug)]
 enum E { Col(usize), K(i64), Null, Bin(char, Box<E>, Box<E>) }
 
-fn gen_expr(rng: &mut Rng, ncols: usize, depth: u32) -> E {
-    if depth == 0 || rng.chance(1, 4) {
-        match rng.below(10) {
-            0..=5 => E::Col(rng.below(ncols as u64) as usize),
-            6 => E::K(*rng.pick(&[0i64, 1, -1, 2, -2, 255, 256, 65536, 4294967296, 9223372036854775806, -9223372036854775807, 3037000500, -3037000500, 10])),
-            7 => E::K(rng.range(-20, 20)),
-            8 => E::K(rng.next() as i64 >> rng.below(63)),
-            _ => if rng.chance(1, 3) { E::Null } else { E::Col(rng.below(ncols as u64) as usize) },
-        }
-    } else {
-        let op = *rng.pick(&['+', '-', '*', '/', '%']);
-        E::Bin(op, Box::new(gen_expr(rng, ncols, depth - 1)), Box::new(gen_expr(rng, ncols, depth - 1)))
+const OPS: [char; 5] = ['+', '-', '*', '/', '%'];
+/// `-9223372036854775808` cannot be written as an integer literal (the SQL parser reads 9223372036854775808 as a
+/// float before negating it), so i64::MIN reaches the operators through column values only.
+fn lit(k: i64) -> i64 { if k == i64::MIN { i64::MIN + 1 } else { k } }
+const EDGE_K: [i64; 22] = [0, 1, -1, 2, -2, 10, 255, 256, 65535, 65536, 4294967295, 4294967296, 3037000499, 3037000500, -3037000500,
+    9223372036854775806, 9223372036854775807, -9223372036854775807, -9223372036854775806, 4611686018427387904, -4611686018427387904, 127];
+
+fn bin(op: char, l: E, r: E) -> E { E::Bin(op, Box::new(l), Box::new(r)) }
+fn is_const(e: &E) -> bool { matches!(e, E::K(_)) }
+
+fn gen_leaf(rng: &mut Rng, ncols: usize) -> E {
+    match rng.below(40) {
+        0..=25 => E::Col(rng.below(ncols as u64) as usize),
+        26..=31 => E::K(*rng.pick(&EDGE_K)),
+        32..=35 => E::K(rng.range(-20, 20)),
+        36..=38 => E::K(rng.next() as i64 >> rng.below(63)),
+        _ => E::Null,
     }
 }
 
-fn has_col(e: &E) -> bool { match e { E::Col(_) => true, E::Bin(_, l, r) => has_col(l) || has_col(r), _ => false } }
+/// Mostly supported shapes: an operator with two constant operands (the planner has no constant folding and
+/// answers FatalError) is generated only with probability 1/25, a NULL literal with probability 1/40 per leaf.
+fn gen_expr(rng: &mut Rng, ncols: usize, depth: u32) -> E {
+    if depth == 0 || rng.chance(1, 5) { return gen_leaf(rng, ncols); }
+    let op = *rng.pick(&OPS);
+    let l = gen_expr(rng, ncols, depth - 1);
+    let mut r = gen_expr(rng, ncols, depth - 1);
+    if is_const(&l) && is_const(&r) && !rng.chance(1, 25) { r = E::Col(rng.below(ncols as u64) as usize); }
+    bin(op, l, r)
+}
 
+fn has_col(e: &E) -> bool { match e { E::Col(_) => true, E::Bin(_, l, r) => has_col(l) || has_col(r), _ => false } }
+fn depth(e: &E) -> u32 { match e { E::Bin(_, l, r) => 1 + depth(l).max(depth(r)), _ => 0 } }
 fn sql(e: &E) -> String {
     match e {
         E::Col(i) => format!("c{}", i),
-        E::K(k) => if *k < 0 { format!("({})", k) } else { format!("{}", k) },
+        E::K(k) => { assert!(*k != i64::MIN); if *k < 0 { format!("({})", k) } else { format!("{}", k) } }
         E::Null => "NULL".into(),
         E::Bin(op, l, r) => format!("({} {} {})", sql(l), op, sql(r)),
     }
 }
-fn rpn(e: &E, out: &mut Vec<String>) {
+fn rpn_into(e: &E, out: &mut Vec<String>) {
     match e {
         E::Col(i) => out.push(format!("c{}", i)),
         E::K(k) => out.push(format!("k{}", k)),
         E::Null => out.push("n".into()),
-        E::Bin(op, l, r) => { rpn(l, out); rpn(r, out); out.push(op.to_string()); }
+        E::Bin(op, l, r) => { rpn_into(l, out); rpn_into(r, out); out.push(op.to_string()); }
     }
+}
+fn rpn(e: &E) -> String { let mut v = vec![]; rpn_into(e, &mut v); v.join(",") }
+
+// ---------------------------------------------------------------------------------------------
+// Tables and physical layouts.
+type Col = Vec<Option<i64>>;
+
+#[derive(Clone, Debug)]
+struct Layout {
+    /// batch boundaries 0 = b0 <= b1 <= … <= bk = n
+    bounds: Vec<usize>,
+    /// force_flush after batch i
+    flush: Vec<bool>,
+    /// leave a column out of a batch in which it is entirely NULL
+    omit: bool,
+    lz4: bool,
+    batch_size: usize,
+    threads: usize,
+    pref: u64,
+}
+
+impl Layout {
+    fn single(n: usize) -> Layout { Layout { bounds: vec![0, n], flush: vec![false], omit: false, lz4: false, batch_size: 1024, threads: 1, pref: 0 } }
+    /// one flushed partition per segment
+    fn split(cuts: &[usize], n: usize) -> Layout {
+        let mut bounds = vec![0]; bounds.extend_from_slice(cuts); bounds.push(n);
+        let k = bounds.len() - 1;
+        Layout { bounds, flush: vec![true; k], omit: true, lz4: false, batch_size: 1024, threads: 2, pref: 0 }
+    }
+    /// Partition boundaries as the query engine sees them: every flush closes a partition, the rows still in the
+    /// open buffer form the last one.
+    fn parts(&self) -> Vec<usize> {
+        let mut out = vec![0];
+        let mut open = 0;
+        for b in 0..self.bounds.len() - 1 {
+            let e = self.bounds[b + 1];
+            if self.flush[b] && e > open { out.push(e); open = e; }
+        }
+        let n = *self.bounds.last().unwrap();
+        if n > open { out.push(n); }
+        out
+    }
+    fn tag(&self) -> String {
+        format!("b{:?} f{:?} om{} lz{} bs{} th{}", self.bounds, self.flush.iter().map(|b| *b as u8).collect::<Vec<_>>(), self.omit as u8, self.lz4 as u8, self.batch_size, self.threads)
+    }
+}
+
+fn gen_layout(rng: &mut Rng, n: usize) -> Layout {
+    let nb = if n == 0 { 1 } else { 1 + rng.below(4.min(n as u64)) as usize };
+    let mut cuts: Vec<usize> = (0..nb - 1).map(|_| rng.below(n as u64 + 1) as usize).collect();
+    cuts.sort();
+    let mut bounds = vec![0]; bounds.extend(cuts); bounds.push(n);
+    Layout {
+        bounds, flush: (0..nb).map(|_| rng.chance(1, 2)).collect(), omit: rng.chance(1, 2), lz4: rng.chance(1, 3),
+        batch_size: *rng.pick(&[8usize, 8, 16, 1024, 1024]), threads: *rng.pick(&[1usize, 2, 4]), pref: rng.next(),
+    }
+}
+
+fn options_for(l: &Layout) -> Options {
+    // size * factor < cumulative size never holds: no compaction
+    Options { threads: l.threads, partition_combine_factor: 1_000_000_000, mem_lz4: l.lz4, batch_size: l.batch_size, ..base_options() }
+}
+
+fn build(cols: &[Col], l: &Layout) -> Arc<LocustDB> {
+    let db = Arc::new(LocustDB::new(&options_for(l)));
+    let mut pref = l.pref;
+    for b in 0..l.bounds.len() - 1 {
+        let (s, e) = (l.bounds[b], l.bounds[b + 1]);
+        if e > s {
+            let mut bc = vec![];
+            for (i, c) in cols.iter().enumerate() {
+                let cells: Vec<Cell> = c[s..e].iter().map(|x| match x { Some(v) => Cell::Int(*v), None => Cell::Null }).collect();
+                pref = pref.wrapping_mul(6364136223846793005).wrapping_add(1442695040888963407);
+                if l.omit && cells.iter().all(|x| *x == Cell::Null) { continue; }
+                bc.push((format!("c{}", i), ColRep::from_cells(&cells, pref >> 33)));
+            }
+            if bc.is_empty() {
+                // a batch needs at least one column to carry its length
+                bc.push(("c0".to_string(), ColRep::Mixed(vec![Cell::Null; e - s])));
+            }
+            ingest(&db, &[Batch { table: "t".into(), len: (e - s) as u64, cols: bc }]);
+        }
+        if l.flush[b] {
+            let db2 = db.clone();
+            if with_deadline(60, move || db2.force_flush()).is_none() { eprintln!("flush hang"); }
+        }
+    }
+    db
+}
+
+fn col_tok(c: &Col) -> String { toks(c, |x| match x { Some(v) => v.to_string(), None => "_".into() }) }
+fn cols_tok(cols: &[Col]) -> String { format!("{} {}", cols.len(), cols.iter().map(col_tok).collect::<Vec<_>>().join(" ")) }
+fn bounds_tok(p: &[usize]) -> String { p.iter().map(|x| x.to_string()).collect::<Vec<_>>().join(",") }
+
+fn cell_tok(c: Option<&Cell>) -> String {
+    match c { Some(Cell::Int(i)) => i.to_string(), Some(Cell::Null) => "_".into(), Some(Cell::Float(b)) => format!("f{:016x}", b), other => format!("?{:?}", other).replace([' ', '\t', ','], "") }
+}
+
+fn out_kind(out: &QOut) -> String {
+    match out { QOut::Ok { .. } => "rows".into(), QOut::Err(k) => k.clone(), QOut::Panic(_) => "panic".into(), QOut::Hang => "hang".into() }
+}
+
+/// `SELECT <expr> FROM t`: one cell per row, in ingestion order.
+fn expr_out(out: &QOut) -> String {
+    match out {
+        QOut::Ok { rows: Some(rows), .. } => format!("rows:{}", toks(rows, |row| cell_tok(row.first()))),
+        other => other.tok(),
+    }
+}
+
+/// `SELECT [g,] SUM(..) FROM t`: `rows:<cell>` or `rows:<key>=<cell>,…` sorted by key (NULL key last).
+fn sum_out(out: &QOut, grouped: bool) -> String {
+    match out {
+        QOut::Ok { rows: Some(rows), .. } => {
+            if !grouped { return format!("rows:{}", toks(rows, |row| cell_tok(row.first()))); }
+            let mut kv: Vec<(Option<i64>, String)> = rows.iter().map(|r| (match r.first() { Some(Cell::Int(i)) => Some(*i), _ => None }, cell_tok(r.get(1)))).collect();
+            kv.sort_by(|a, b| match (a.0, b.0) { (Some(x), Some(y)) => x.cmp(&y), (Some(_), None) => std::cmp::Ordering::Less, (None, Some(_)) => std::cmp::Ordering::Greater, _ => std::cmp::Ordering::Equal });
+            format!("rows:{}", toks(&kv, |(k, v)| format!("{}={}", k.map(|x| x.to_string()).unwrap_or("_".into()), v)))
+        }
+        other => other.tok(),
+    }
+}
+
+struct Ctx { cases: Cases }
+
+impl Ctx {
+    fn layout_case(&mut self, db: &Arc<LocustDB>, l: &Layout, class: &str) {
+        let db2 = db.clone();
+        let r = with_deadline(20, move || futures::executor::block_on(db2.run_query("SELECT c0 FROM t", true, true, vec![])));
+        let imp = match r { Some(Ok(Ok(o))) => format!("parts:{}", o.query_plans.values().map(|x| *x as usize).sum::<usize>()), _ => "parts:?".into() };
+        self.cases.push(class, &format!("layout {}", bounds_tok(&l.parts())), &imp, &l.tag());
+    }
+    fn expr_case(&mut self, db: &Arc<LocustDB>, cols: &[Col], l: &Layout, e: &E, class: &str) {
+        let q = format!("SELECT {} FROM t", sql(e));
+        let out = query(db, &q);
+        let imp = expr_out(&out);
+        let line = format!("expr {} {} {} {}", rpn(e), bounds_tok(&l.parts()), cols_tok(cols), imp);
+        self.cases.push(&format!("{}:{}", class, out_kind(&out)), &line, &imp, &format!("{} | {} | {}", q, l.tag(), out.detail()));
+    }
+    fn sum_case(&mut self, db: &Arc<LocustDB>, cols: &[Col], l: &Layout, e: &E, g: Option<usize>, class: &str) {
+        let q = match g { Some(gi) => format!("SELECT c{}, SUM({}) FROM t", gi, sql(e)), None => format!("SELECT SUM({}) FROM t", sql(e)) };
+        let out = query(db, &q);
+        let imp = sum_out(&out, g.is_some());
+        let line = format!("sum {} {} {} {} {}", rpn(e), bounds_tok(&l.parts()), g.map(|x| x.to_string()).unwrap_or("-".into()), cols_tok(cols), imp);
+        self.cases.push(&format!("{}:{}", class, out_kind(&out)), &line, &imp, &format!("{} | {} | {}", q, l.tag(), out.detail()));
+    }
+}
+
+fn some(v: &[i64]) -> Col { v.iter().map(|x| Some(*x)).collect() }
+const MAX: i64 = i64::MAX;
+const MIN: i64 = i64::MIN;
+
+/// Witnesses of findings (open ones are expected to fail and be classified; fixed ones must stay green).
+fn corpus(cx: &mut Ctx) {
+    // #16 sum-sentinel: partial sum i64::MAX is taken for NULL (single partition: NULL; two partitions: dropped)
+    let c = vec![some(&[MAX - 1, 1, 0])];
+    for (l, name) in [(Layout::single(3), "one-partition"), (Layout::split(&[2], 3), "merge-drops-partial"), (Layout::split(&[1], 3), "total-is-max")] {
+        let db = build(&c, &l);
+        cx.sum_case(&db, &c, &l, &E::Col(0), None, &format!("corpus:sum-sentinel:{}", name));
+    }
+    let c = vec![some(&[MAX - 1, 1, 0, 5]), some(&[0, 0, 0, 1])];
+    let l = Layout::split(&[2], 4);
+    let db = build(&c, &l);
+    cx.sum_case(&db, &c, &l, &E::Col(0), Some(1), "corpus:sum-sentinel:grouped");
+    // select-i64max-null: a non-nullable expression result equal to i64::MAX is shown as NULL in the row view
+    let c = vec![some(&[MAX - 1, 5])];
+    let l = Layout::single(2);
+    let db = build(&c, &l);
+    cx.expr_case(&db, &c, &l, &bin('+', E::Col(0), E::K(1)), "corpus:select-i64max-null");
+    let c = vec![vec![Some(MAX - 1), None]];
+    let db = build(&c, &l);
+    cx.expr_case(&db, &c, &l, &bin('+', E::Col(0), E::K(1)), "corpus:select-i64max-nullable-ok");
+    // fixed bf2455f: i64::MIN % -1 panicked
+    let c = vec![some(&[MIN, -1, 0, 7]), some(&[-1, -1, -1, -1])];
+    let l = Layout::single(4);
+    let db = build(&c, &l);
+    cx.expr_case(&db, &c, &l, &bin('%', E::Col(0), E::K(-1)), "corpus:min-mod-minus1:vs");
+    cx.expr_case(&db, &c, &l, &bin('%', E::Col(0), E::Col(1)), "corpus:min-mod-minus1:vv");
+    cx.expr_case(&db, &c, &l, &bin('/', E::Col(0), E::Col(1)), "corpus:min-div-minus1:vv");
+    // fixed (arith-null-partition): `x + 1` failed with TypeError when x is entirely NULL in one partition
+    let c = vec![vec![Some(1), Some(2), None, None], some(&[5, 6, 7, 8])];
+    for (l, name) in [(Layout::split(&[2], 4), "absent"), (Layout { omit: false, ..Layout::split(&[2], 4) }, "allnull")] {
+        let db = build(&c, &l);
+        for op in ['+', '-', '%', '*', '/'] {
+            cx.expr_case(&db, &c, &l, &bin(op, E::Col(0), E::K(1)), &format!("corpus:arith-null-partition:{}:{}", name, op));
+            cx.expr_case(&db, &c, &l, &bin(op, E::Col(1), E::Col(0)), &format!("corpus:arith-null-partition:{}:vv{}", name, op));
+        }
+        cx.sum_case(&db, &c, &l, &bin('+', E::Col(0), E::K(1)), None, &format!("corpus:arith-null-partition:{}:sum", name));
+    }
+    // fixed (sum-null-partition-float): SUM degraded to a rounded float when the column is all NULL in one partition
+    let c = vec![vec![Some(9007199254740993), Some(2), None, None], some(&[5, 6, 5, 8])];
+    let l = Layout::split(&[2], 4);
+    let db = build(&c, &l);
+    cx.sum_case(&db, &c, &l, &E::Col(0), None, "corpus:sum-null-partition-float");
+    cx.sum_case(&db, &c, &l, &E::Col(0), Some(1), "corpus:sum-null-partition-float:grouped");
+    let c = vec![vec![None, None, Some(9007199254740993), Some(2)], some(&[5, 6, 5, 8])];
+    let db = build(&c, &l);
+    cx.sum_case(&db, &c, &l, &E::Col(0), None, "corpus:sum-null-partition-float:null-first");
+    // fixed (stream-short-bitmap): a presence bitmap shorter than the column, read in chunks, panicked
+    let mut c: Col = (0..13).map(|i| Some(1000 - 77 * i)).collect();
+    c.extend(std::iter::repeat(None).take(27));
+    let cols = vec![(0..40).map(|i| Some(i * 3 - 50)).collect::<Col>(), c];
+    let l = Layout { batch_size: 8, threads: 2, ..Layout::single(40) };
+    let db = build(&cols, &l);
+    cx.expr_case(&db, &cols, &l, &E::Col(1), "corpus:stream-short-bitmap");
+    cx.expr_case(&db, &cols, &l, &bin('+', E::Col(1), E::Col(0)), "corpus:stream-short-bitmap:vv");
+    cx.sum_case(&db, &cols, &l, &E::Col(1), None, "corpus:stream-short-bitmap:sum");
+    // fixed (combine-null-maps-stale): NULL + x returned a number in the last chunk of a streamed stage
+    let cols = vec![vec![Some(5), Some(6), None, None, None, None, None, None, None], vec![Some(1), None, Some(1), Some(1), Some(1), Some(1), Some(1), Some(1), Some(1)]];
+    for pref in [0u64, 1, 2] {
+        let l = Layout { batch_size: 8, threads: 2, omit: true, pref, ..Layout::single(9) };
+        let db = build(&cols, &l);
+        for op in ['+', '/', '%'] {
+            cx.expr_case(&db, &cols, &l, &bin(op, E::Col(0), E::Col(1)), &format!("corpus:combine-null-maps-stale:{}", op));
+            cx.expr_case(&db, &cols, &l, &bin(op, E::Col(0), E::Col(0)), &format!("corpus:combine-null-maps-stale:self{}", op));
+        }
+        cx.sum_case(&db, &cols, &l, &bin('+', E::Col(0), E::Col(1)), None, "corpus:combine-null-maps-stale:sum");
+    }
+    // open (group-nullkey-duplicate, C04's subject): a group key returned twice when the key is NULL in one partition
+    let cols = vec![some(&[5, 6, 7]), vec![Some(2000), Some(2000), None]];
+    let l = Layout::split(&[1], 3);
+    let db = build(&cols, &l);
+    cx.sum_case(&db, &cols, &l, &E::Col(0), Some(1), "corpus:group-nullkey-duplicate");
+    // outside the fragment: predicted error values
+    let c = vec![some(&[1, 2, 3])];
+    let l = Layout::single(3);
+    let db = build(&c, &l);
+    cx.expr_case(&db, &c, &l, &bin('+', E::Col(0), bin('+', E::K(307504), E::K(-1))), "corpus:const-const-fatal");
+    cx.expr_case(&db, &c, &l, &bin('+', E::Col(0), E::Null), "corpus:null-literal-notimpl");
+}
+
+/// Operand values at the edges of the storage widths and of i64 for one operator.
+fn edge_values(op: char) -> (Vec<i64>, Vec<i64>) {
+    let big = vec![MIN, MIN + 1, MIN + 2, -MAX / 2, -4294967296, -65536, -256, -2, -1, 0, 1, 2, 255, 256, 65535, 65536, 4294967295, 4294967296, MAX / 2, MAX / 2 + 1, MAX - 2, MAX - 1];
+    match op {
+        '*' => (vec![MIN, MIN + 1, -3037000500, -3037000499, -4294967296, -65536, -2, -1, 0, 1, 2, 255, 65536, 4294967295, 4294967296, 3037000499, 3037000500, MAX / 2, MAX / 2 + 1, MAX - 1],
+                vec![MIN, -3037000500, -4294967296, -2, -1, 0, 1, 2, 3, 65536, 4294967296, 4294967297, 3037000499, 3037000500, MAX - 1]),
+        '/' | '%' => (big.clone(), vec![MIN, MIN + 1, -65536, -2, -1, 0, 1, 2, 255, 65536, MAX - 1]),
+        _ => (big.clone(), big),
+    }
+}
+
+/// Thorough tier: EVERY pair of the operator's edge sets, one pair per column pair (ten pairs per table), nullable and not.
+fn edge_exhaustive(cx: &mut Ctx) {
+    for op in OPS {
+        let (ls, rs) = edge_values(op);
+        let mut pairs: Vec<(i64, i64)> = vec![];
+        for l in &ls { for r in &rs { pairs.push((*l, *r)); } }
+        for (ci, chunk) in pairs.chunks(10).enumerate() {
+            let nulls = ci % 2 == 1;
+            let mut single: Vec<Col> = vec![];
+            for (j, (a, b)) in chunk.iter().enumerate() {
+                // the NULL operand alternates between the left and the right column (a NULL slot stores 0: as a divisor
+                // it would raise the flag if the presence guard were missing)
+                single.push(vec![Some(*a), if nulls && j % 2 == 0 { None } else { Some(*a) }, Some(1)]);
+                single.push(vec![Some(*b), if nulls && j % 2 == 1 { None } else { Some(*b) }, Some(1)]);
+            }
+            let l1 = Layout::single(3);
+            let db1 = build(&single, &l1);
+            for j in 0..chunk.len() {
+                cx.expr_case(&db1, &single, &l1, &bin(op, E::Col(2 * j), E::Col(2 * j + 1)), &format!("edgeall:{}:vv1:{}", op, if nulls { "nullable" } else { "nonnull" }));
+            }
+        }
+    }
+}
+
+fn edge_stream(cx: &mut Ctx, rng: &mut Rng, rounds: usize) {
+    for round in 0..rounds {
+        for op in OPS {
+            let (ls, rs) = edge_values(op);
+            // one table: every (l, r) pair (or a random sample of the product), optional NULL rows
+            let mut pairs: Vec<(i64, i64)> = vec![];
+            for l in &ls { for r in &rs { pairs.push((*l, *r)); } }
+            // sample: keep tables small enough for the row loop, different pairs per round
+            let take = 24;
+            let mut sel = vec![];
+            for _ in 0..take { sel.push(*rng.pick(&pairs)); }
+            let nulls = round % 2 == 1;
+            let c0: Col = sel.iter().map(|p| if nulls && rng.chance(1, 6) { None } else { Some(p.0) }).collect();
+            let c1: Col = sel.iter().map(|p| if nulls && rng.chance(1, 6) { None } else { Some(p.1) }).collect();
+            let cols = vec![c0, c1];
+            let l = if round % 3 == 0 { Layout::single(take) } else { gen_layout(rng, take) };
+            let db = build(&cols, &l);
+            let nn = if nulls { "nullable" } else { "nonnull" };
+            cx.expr_case(&db, &cols, &l, &bin(op, E::Col(0), E::Col(1)), &format!("edge:{}:vv:{}", op, nn));
+            // row-at-a-time: every pair is judged on its own (an overflow elsewhere in a column would mask it); ten
+            // pairs share one table as ten column pairs: the pair, the pair again (or a NULL operand), and a harmless row
+            // (1 op 1 never overflows)
+            let mut single: Vec<Col> = vec![];
+            for j in 0..10 {
+                let (a, b) = *rng.pick(&pairs);
+                single.push(vec![Some(a), if nulls && j % 2 == 0 { None } else { Some(a) }, Some(1)]);
+                single.push(vec![Some(b), if nulls && j % 2 == 1 { None } else { Some(b) }, Some(1)]);
+            }
+            let l1 = Layout::single(3);
+            let db1 = build(&single, &l1);
+            for j in 0..10 {
+                let (a, b) = (single[2 * j][0].unwrap(), single[2 * j + 1][0].unwrap());
+                cx.expr_case(&db1, &single, &l1, &bin(op, E::Col(2 * j), E::Col(2 * j + 1)), &format!("edge:{}:vv1:{}", op, nn));
+                cx.expr_case(&db1, &single, &l1, &bin(op, E::Col(2 * j), E::K(lit(b))), &format!("edge:{}:vs1:{}", op, nn));
+                cx.expr_case(&db1, &single, &l1, &bin(op, E::K(lit(a)), E::Col(2 * j + 1)), &format!("edge:{}:sv1:{}", op, nn));
+            }
+            for _ in 0..3 {
+                let k = lit(*rng.pick(&rs));
+                cx.expr_case(&db, &cols, &l, &bin(op, E::Col(0), E::K(k)), &format!("edge:{}:vs:{}", op, nn));
+                let k = lit(*rng.pick(&ls));
+                cx.expr_case(&db, &cols, &l, &bin(op, E::K(k), E::Col(1)), &format!("edge:{}:sv:{}", op, nn));
+            }
+        }
+    }
+}
+
+/// Narrow storage classes: values at both ends of the u8/u16/u32 windows, with and without offset.
+fn width_edge_cols(rng: &mut Rng, n: usize) -> (Col, &'static str) {
+    let (lo, span, name): (i64, i64, &'static str) = *rng.pick(&[
+        (0, 255, "u8"), (0, 256, "u8+1"), (-1000, 255, "u8off"), (MIN, 255, "u8offmin"), (MAX - 1 - 255, 255, "u8offmax"),
+        (0, 65535, "u16"), (0, 65536, "u16+1"), (-70000, 65535, "u16off"), (MIN, 65535, "u16offmin"), (MAX - 1 - 65535, 65535, "u16offmax"),
+        (0, 4294967295, "u32"), (0, 4294967296, "u32+1"), (-5000000000, 4294967295, "u32off"), (MIN, 4294967295, "u32offmin"), (MAX - 1 - 4294967295, 4294967295, "u32offmax"),
+        (MIN, -1, "i64full"),
+    ]);
+    let mut v: Vec<i64> = (0..n).map(|_| if span < 0 { let x = rng.next() as i64; if x == MAX { MAX - 1 } else { x } } else { lo + rng.range(0, span) }).collect();
+    if span >= 0 && n >= 2 { v[0] = lo; v[n - 1] = lo + span; if n >= 4 { v[1] = lo + 1; v[n - 2] = lo + span - 1; } }
+    (v.into_iter().map(Some).collect(), name)
+}
+
+fn gen_table(rng: &mut Rng) -> (Vec<Col>, Vec<String>, usize) {
+    let ncols = 1 + rng.below(3) as usize;
+    let n = *rng.pick(&[1usize, 2, 3, 7, 8, 9, 17, 40]);
+    let mut cols = vec![];
+    let mut classes = vec![];
+    for _ in 0..ncols {
+        let (mut col, class): (Col, String) = if rng.chance(1, 3) {
+            let (c, name) = width_edge_cols(rng, n);
+            (c, format!("w-{}", name))
+        } else {
+            let class = *rng.pick(INT_CLASSES);
+            (gen_ints(rng, n, class).into_iter().map(Some).collect(), class.to_string())
+        };
+        let mask = gen_null_mask(rng, n);
+        for (i, m) in mask.iter().enumerate() { if *m { col[i] = None; } }
+        // occasionally a run of NULLs (a partition in which the column is entirely NULL / absent)
+        if n >= 3 && rng.chance(1, 6) { let s = rng.below(n as u64) as usize; let e = (s + 1 + rng.below(n as u64) as usize).min(n); for x in col.iter_mut().take(e).skip(s) { *x = None; } }
+        classes.push(class);
+        cols.push(col);
+    }
+    (cols, classes, n)
+}
+
+fn expr_stream(cx: &mut Ctx, rng: &mut Rng, tables: usize, per_table: usize) {
+    for _ in 0..tables {
+        let (cols, classes, n) = gen_table(rng);
+        let l = gen_layout(rng, n);
+        let db = build(&cols, &l);
+        cx.layout_case(&db, &l, "layout");
+        let np = l.parts().len() - 1;
+        for _ in 0..per_table {
+            let mut e = gen_expr(rng, cols.len(), 3);
+            if !has_col(&e) { e = bin('+', E::Col(0), e); }
+            cx.expr_case(&db, &cols, &l, &e, &format!("expr:d{}:p{}:{}", depth(&e), np.min(3), classes.join("+")));
+        }
+    }
+}
+
+// ---------------------------------------------------------------------------------------------
+// SUM
+fn group_col(rng: &mut Rng, n: usize) -> Col {
+    let k = 1 + rng.below(4) as i64;
+    let nullable = rng.chance(1, 3);
+    (0..n).map(|_| if nullable && rng.chance(1, 5) { None } else { Some(rng.range(0, k - 1) * if k == 4 { 1000 } else { 1 }) }).collect()
+}
+
+/// Values whose running / partial sums come close to the i64 limits.
+fn sum_values(rng: &mut Rng, n: usize, kind: &str) -> Vec<i64> {
+    match kind {
+        "small" => (0..n).map(|_| rng.range(-100, 100)).collect(),
+        "u8" => (0..n).map(|_| rng.range(0, 255)).collect(),
+        "u32off" => { let o = MIN + rng.range(0, 1000); (0..n).map(|_| o + rng.range(0, u32::MAX as i64)).collect() }
+        "half" => (0..n).map(|_| *rng.pick(&[MAX / 2, MAX / 2 + 1, -(MAX / 2), MIN / 2, 1, -1, 0, 2])).collect(),
+        "near" => (0..n).map(|_| *rng.pick(&[MAX - 1, MAX - 2, MIN, MIN + 1, 1, -1, 0, 2, -2, 3])).collect(),
+        "cancel" => { let mut v = vec![]; while v.len() < n { let x = rng.range(MAX / 4, MAX - 1); v.push(x); if v.len() < n { v.push(-x + rng.range(-3, 3)); } } v }
+        _ => (0..n).map(|_| { let x = rng.next() as i64 >> rng.below(8); if x == MAX { MAX - 1 } else { x } }).collect(),
+    }
+}
+
+const SUM_KINDS: &[&str] = &["small", "u8", "u32off", "half", "near", "cancel", "wide", "half", "near"];
+
+fn sum_stream(cx: &mut Ctx, rng: &mut Rng, tables: usize, per_table: usize) {
+    for _ in 0..tables {
+        let n = *rng.pick(&[1usize, 2, 3, 4, 5, 8, 9, 17]);
+        let kind = *rng.pick(SUM_KINDS);
+        let mut c0: Col = sum_values(rng, n, kind).into_iter().map(Some).collect();
+        let mask = gen_null_mask(rng, n);
+        for (i, m) in mask.iter().enumerate() { if *m { c0[i] = None; } }
+        if n >= 3 && rng.chance(1, 6) { let s = rng.below(n as u64) as usize; let e = (s + 1 + rng.below(n as u64) as usize).min(n); for x in c0.iter_mut().take(e).skip(s) { *x = None; } }
+        let c1: Col = { let (c, _) = width_edge_cols(rng, n); let m = gen_null_mask(rng, n); c.into_iter().zip(m).map(|(x, m)| if m { None } else { x }).collect() };
+        let g = group_col(rng, n);
+        let cols = vec![c0, c1, g];
+        let l = gen_layout(rng, n);
+        let db = build(&cols, &l);
+        cx.layout_case(&db, &l, "layout");
+        let np = (l.parts().len() - 1).min(3);
+        for _ in 0..per_table {
+            let e = match rng.below(8) {
+                0..=3 => E::Col(0),
+                4 => E::Col(1),
+                5 => bin(*rng.pick(&['+', '-', '*']), E::Col(0), E::K(*rng.pick(&[0i64, 1, -1, 2, 10]))),
+                6 => bin(*rng.pick(&['+', '-', '/', '%']), E::Col(0), E::Col(1)),
+                _ => { let mut e = gen_expr(rng, 2, 2); if !has_col(&e) { e = bin('+', E::Col(0), e); } e }
+            };
+            let grouped = rng.chance(1, 2);
+            let ek = if matches!(e, E::Col(_)) { "col" } else { "expr" };
+            cx.sum_case(&db, &cols, &l, &e, if grouped { Some(2) } else { None }, &format!("sum:{}:{}:{}:p{}", if grouped { "grouped" } else { "all" }, ek, kind, np));
+        }
+    }
+}
+
+/// Directed: the same three values under every partitioning, so that the overflow falls inside one partition,
+/// only at the merge, or nowhere; and partial sums that hit the sentinel.
+fn sum_directed(cx: &mut Ctx, rng: &mut Rng, exhaustive: bool) {
+    let sets: Vec<Vec<i64>> = vec![
+        vec![MAX - 1, 1, 1], vec![MAX - 1, 1, -1], vec![MAX - 1, 2, -5], vec![MAX / 2 + 1, MAX / 2 + 1, -5], vec![MIN, -1, 5], vec![MIN, MAX - 1, 1],
+        vec![MIN + 1, -1, -1], vec![MAX - 1, -MAX, MAX - 1], vec![1, MAX - 2, 1], vec![MAX - 2, 1, 0, 1], vec![MIN, MIN, MAX - 1, MAX - 1, 2],
+        vec![MAX / 2, MAX / 2, 1, 1], vec![MAX - 1, MIN, 1, 0], vec![5, MAX - 6, 0, 3],
+    ];
+    for vals in sets {
+        let n = vals.len();
+        let masks: Vec<usize> = if exhaustive { (0..(1usize << (n - 1))).collect() } else { let mut m = vec![0, (1 << (n - 1)) - 1]; for _ in 0..2 { m.push(rng.below(1 << (n - 1)) as usize); } m };
+        for mask in masks {
+            let cuts: Vec<usize> = (1..n).filter(|i| mask >> (i - 1) & 1 == 1).collect();
+            // c0: the values and a 0; c1: the values and a NULL (nullable aggregate); g: two groups
+            let mut c0: Col = vals.iter().map(|x| Some(*x)).collect();
+            let mut c1 = c0.clone();
+            let mut g: Col = (0..n).map(|i| Some((i % 2) as i64)).collect();
+            c0.push(Some(0)); c1.push(None); g.push(Some(0));
+            let nn = c0.len();
+            let cols = vec![c0, c1, g];
+            let mut l = Layout::split(&cuts, nn);
+            l.threads = *rng.pick(&[1usize, 2]);
+            let db = build(&cols, &l);
+            for (ci, nm) in [(0usize, "nonnull"), (1, "nullable")] {
+                let cls = format!("sumdir:p{}:{}", (cuts.len() + 1).min(4), nm);
+                cx.sum_case(&db, &cols, &l, &E::Col(ci), None, &format!("{}:all", cls));
+                cx.sum_case(&db, &cols, &l, &E::Col(ci), Some(2), &format!("{}:grouped", cls));
+            }
+        }
+    }
+}
+
+fn dbg_main(a: &[String]) {
+    let csv = |s: &str| -> Vec<usize> { s.split(',').map(|x| x.parse().unwrap()).collect() };
+    let l = Layout { bounds: csv(&a[3]), flush: csv(&a[4]).into_iter().map(|x| x == 1).collect(), omit: a[2] == "1", lz4: false,
+        batch_size: a[0].parse().unwrap(), threads: a[1].parse().unwrap(), pref: a[5].parse().unwrap() };
+    let cols: Vec<Col> = a[7..].iter().map(|c| c.split(',').map(|x| if x == "_" { None } else { Some(x.parse().unwrap()) }).collect()).collect();
+    let db = build(&cols, &l);
+    let out = query(&db, &a[6]);
+    println!("parts {:?}\n{}\n{}", l.parts(), out.tok(), out.detail());
 }
 
 fn main() {
     let args = parse_args();
-    quiet_panics();
+    if args.rest.first().map(|s| s == "dbg").unwrap_or(false) { dbg_main(&args.rest[1..]); return; }
+    if std::env::var("C06_LOUD").is_err() { quiet_panics(); }
     let mut rng = Rng::new(args.seed);
-    let mut cases = Cases::create(&args.out);
-    let tables = if args.thorough() { 400 } else { 60 };
-    let per_table = if args.thorough() { 30 } else { 15 };
-    for t in 0..tables {
-        let ncols = 1 + rng.below(3) as usize;
-        let n = *rng.pick(&[1usize, 2, 3, 7, 8, 9, 17, 40]);
-        let mut cols: Vec<Vec<Cell>> = vec![];
-        let mut classes = vec![];
-        for _ in 0..ncols {
-            let class = *rng.pick(INT_CLASSES);
-            classes.push(class);
-            let ints: Vec<Cell> = gen_ints(&mut rng, n, class).into_iter().map(Cell::Int).collect();
-            let mask = gen_null_mask(&mut rng, n);
-            cols.push(apply_nulls(ints, &mask));
-        }
-        // physical realisation: 1..3 batches, optionally flushed into partitions
-        let db = Arc::new(LocustDB::new(&locustdb::Options { partition_combine_factor: 1_000_000_000, ..base_options() }));
-        let nb = 1 + rng.below(3) as usize;
-        let mut start = 0;
-        let mut real = String::new();
-        for b in 0..nb {
-            let end = if b + 1 == nb { n } else { start + rng.below((n - start + 1) as u64) as usize };
-            if end > start {
-                let batch = Batch { table: "t".into(), len: (end - start) as u64,
-                    cols: cols.iter().enumerate().map(|(i, c)| (format!("c{}", i), ColRep::from_cells(&c[start..end], rng.next()))).collect() };
-                real.push_str(&format!("[{}..{} {}", start, end, batch.cols.iter().map(|c| c.1.kind()).collect::<Vec<_>>().join("/")));
-                ingest(&db, &[batch]);
-                if rng.chance(1, 2) { db.force_flush(); real.push_str(" F"); }
-                real.push(']');
-            }
-            start = end;
-        }
-        let coltoks: Vec<String> = cols.iter().map(|c| toks(c, |x| match x { Cell::Int(i) => i.to_string(), _ => "_".into() })).collect();
-        for _ in 0..per_table {
-            let mut e = gen_expr(&mut rng, ncols, 3);
-            if !has_col(&e) { e = E::Bin('+', Box::new(E::Col(0)), Box::new(e)); }
-            let q = format!("SELECT {} FROM t", sql(&e));
-            let out = query(&db, &q);
-            let mut r = vec![]; rpn(&e, &mut r);
-            let impl_tok = match &out {
-                QOut::Ok { rows: Some(rows), .. } => format!("rows:{}", toks(rows, |row| match row.get(0) { Some(Cell::Int(i)) => i.to_string(), Some(Cell::Null) => "_".into(), other => format!("?{:?}", other) })),
-                other => other.tok(),
-            };
-            let model_line = format!("expr {} {} {}", r.join(","), ncols, coltoks.join(" "));
-            cases.push(&format!("{}:{}", classes.join("+"), if matches!(out, QOut::Ok{..}) { "ok" } else { "err" }), &model_line, &impl_tok, &format!("{} | {} | {}", q, real, out.detail()));
-        }
-        let _ = t;
-    }
-    cases.finish();
+    let mut cx = Ctx { cases: Cases::create(&args.out) };
+    let only = args.rest.iter().position(|x| x == "--only").map(|i| args.rest[i + 1].clone());
+    let want = |name: &str| only.as_ref().map(|o| o == name).unwrap_or(true);
+    let t0 = std::time::Instant::now();
+    let lap = |name: &str, n: usize| eprintln!("[c06] {:>8} done at {:6.1}s, {} cases", name, t0.elapsed().as_secs_f64(), n);
+    let th = args.thorough();
+    if want("corpus") { corpus(&mut cx); lap("corpus", cx.cases.n); }
+    if want("edge") { edge_stream(&mut cx, &mut rng, if th { 6 } else { 2 }); lap("edge", cx.cases.n); }
+    if th && want("edgeall") && (args.seed / 1000) % 3 == 0 { edge_exhaustive(&mut cx); lap("edgeall", cx.cases.n); }
+    if want("expr") { expr_stream(&mut cx, &mut rng, if th { 150 } else { 30 }, if th { 15 } else { 10 }); lap("expr", cx.cases.n); }
+    if want("sumdir") { sum_directed(&mut cx, &mut rng, th); lap("sumdir", cx.cases.n); }
+    if want("sum") { sum_stream(&mut cx, &mut rng, if th { 120 } else { 30 }, if th { 8 } else { 6 }); lap("sum", cx.cases.n); }
+    cx.cases.finish();
 }
